@@ -160,7 +160,18 @@ def run(tier):
 
     raw_file = chk.work / "raw.json"
     tlc.write_json(raw_file, {"groups": c07.export_raw(), "impls": []})
-    spec_days = sorted(set(dates) | {"2001-01-01", "2001-12-31", "2003-12-31", "2004-01-01"})
+    # every day on which a rounding specification changes, the day before, and the first and last day of that year
+    import datetime
+
+    rdays = set()
+    for g_ in c07.export_raw():
+        for r_ in g_.get("rounding", []):
+            for e_ in r_["entries"]:
+                d_ = datetime.date.fromordinal(e_["day"])
+                if d_.year >= 1995:
+                    rdays |= {d_, d_ - datetime.timedelta(days=1), datetime.date(d_.year, 1, 1), datetime.date(d_.year, 12, 31)}
+    spec_days = sorted(set(dates) | {"2001-01-01", "2001-12-31", "2003-12-31", "2004-01-01"} | {d_.isoformat() for d_ in rdays})
+    chk.notes["rounding_spec_days"] = spec_days
     evs = [e for d in spec_days for e in c07.observe_day((d, False))[0] if e["k"] == "env"]
     badspec, st, _meta = c07.judge(chk, raw_file, evs, "c10spec")
     chk.count(len(evs))
